@@ -670,8 +670,7 @@ def set_mixed_mm_fo_elimination(model: Model):
 
 def _do_michaelis_menten_elimination(model: Model, combined: bool = False):
     sset = model.statements
-    odes = sset.ode_system
-    assert isinstance(odes, CompartmentalSystem)
+    odes = get_and_check_odes(model)
     central = odes.central_compartment
     old_rate = odes.get_flow(central, output)
     assert old_rate is not None
